@@ -3,6 +3,8 @@ import NibabelModel.Lemmas.PySlice
 import NibabelModel.Lemmas.C18
 import NibabelModel.Lemmas.C18_Map
 import NibabelModel.Lemmas.C18_Add
+import NibabelModel.Lemmas.C18_Meta
+import NibabelModel.Lemmas.C18_Gen
 /-!
   Props/C18 — property theorems for C18 (CIFTI-2 axes, header XML and matrix data stay mutually
   consistent).  All statements are unbounded (any axis length, any index object, any slice).
@@ -23,6 +25,14 @@ import NibabelModel.Lemmas.C18_Add
     the contract float(str(v)) = v), `parcels_mapping_roundtrip` (EVERY `nvertices` entry survives, used or
     not; the refusal for a structure without `nvertices` entry is shown by an `example`);
     `dispatch_roundtrip` over the tables regenerated from the source; `parcels_add_ok_iff`.
+  * metadata dicts through the XML text (wave-3 extension): `meta_xml_roundtrip` (every dict without outer
+    whitespace — EMPTY values and the empty key included — comes back identical, entry order included),
+    `meta_xml_spec` (ANY dict: the result is the dict of stripped entries, last one wins),
+    `scalarm_xml_roundtrip` (a scalar axis with explicit per-map metadata), `meta_xml_empty_value_kept`.
+  * the SeriesAxis methods TRANSLATED from the working tree each run (`Generated/C18Funcs.lean`, py2lean_c18):
+    `gen_series_eq_model` (get_element / __getitem__ on slices, ints and anything else / __add__ equal the model
+    for all inputs) and the property clauses restated on the translated code: `gen_series_getitem_spec`,
+    `gen_series_int_spec`, `gen_series_add_spec`.
   * `positions_lt`, `slice_positions_length`, `gather_getElem`, `bm_valid_of_mk` are GLUE (helper facts /
     definitional bridges), kept because other statements are read through them.
 
@@ -753,5 +763,125 @@ example : NvCompatible [(0, 4)] [(0, 4), (1, 6)] ∧ ¬ NvCompatible [(0, 4)] [(
   · intro h
     have := h (0, 5) (by simp) 4 (by decide)
     cases this
+
+/-! ## metadata dicts through the XML text (wave-3 extension) -/
+
+/-- dict → `MetaData` element → parser → dict is the identity (entries AND their order) on every metadata dict
+    whose keys and values carry no leading / trailing whitespace and whose keys are distinct: in particular every
+    entry with an EMPTY value (or the empty key) survives; the empty dict, for which no element is written,
+    comes back as the empty dict. -/
+theorem meta_xml_roundtrip (d : MDict) (h : MDict.Safe d) : mdXrt d = d := md_xml_roundtrip' d h
+
+example : MDict.Safe [(⟨3, 0, 0⟩, ⟨0, 0, 0⟩), (⟨0, 0, 0⟩, ⟨5, 0, 0⟩)] ∧ MDict.Safe [] :=
+  ⟨⟨by decide, by decide⟩, ⟨by decide, by decide⟩⟩
+example : mdXrt [(⟨3, 0, 0⟩, ⟨0, 0, 0⟩), (⟨0, 0, 0⟩, ⟨5, 0, 0⟩)] = [(⟨3, 0, 0⟩, ⟨0, 0, 0⟩), (⟨0, 0, 0⟩, ⟨5, 0, 0⟩)] := by
+  decide
+
+/-- ANY metadata dict (padding anywhere, keys that collide once stripped): the result is a dict (distinct keys)
+    that maps `k` to the stripped value of the LAST entry whose stripped key is `k`, and to nothing if there is
+    none — the parser's `data.strip()` is the only thing that happens to the entries (open finding
+    `roundtrip:meta-whitespace`). -/
+theorem meta_xml_spec (d : MDict) :
+    ((mdXrt d).map (·.1)).Nodup ∧
+    ∀ k, mdGet (mdXrt d) k = lastWith (d.map (fun e => (e.1.strip, e.2.strip))) k := md_xml_spec' d
+
+example : mdXrt [(⟨3, 1, 0⟩, ⟨4, 0, 2⟩), (⟨3, 0, 0⟩, ⟨0, 1, 0⟩)] = [(⟨3, 0, 0⟩, ⟨0, 0, 0⟩)] := by decide
+
+/-- the clause seeded change C18_8 broke, as a direct consequence: an entry whose value is the empty text
+    (core `e`, no padding) is still there after the round trip, with the empty value -/
+theorem meta_xml_empty_value_kept (d : MDict) (h : MDict.Safe d) (k e : Txt) (hk : (k, e) ∈ d) :
+    (k, e) ∈ mdXrt d := by rw [meta_xml_roundtrip d h]; exact hk
+
+example : ((⟨3, 0, 0⟩, ⟨0, 0, 0⟩) : MD) ∈ mdXrt [(⟨1, 0, 0⟩, ⟨2, 0, 0⟩), (⟨3, 0, 0⟩, ⟨0, 0, 0⟩)] := by decide
+
+/-- header → XML → header for a ScalarAxis with explicit per-map metadata dicts: identical names and dicts
+    (every map its own dict; maps without metadata get no `MetaData` element and read back `{}`) -/
+theorem scalarm_xml_roundtrip (a : ScalarM) (hv : a.Valid) : scalarMXrt a = .ok a := scalarm_xml_roundtrip' a hv
+
+example : (⟨[1, 2, 1], [[(⟨3, 0, 0⟩, ⟨0, 0, 0⟩)], [], [(⟨3, 0, 0⟩, ⟨7, 0, 0⟩), (⟨4, 0, 0⟩, ⟨0, 0, 0⟩)]]⟩ : ScalarM).Valid := by
+  refine ⟨by decide, ?_⟩
+  intro d hd
+  simp only [List.mem_cons, List.mem_nil_iff, or_false] at hd
+  rcases hd with rfl | rfl | rfl <;> exact ⟨by decide, by decide⟩
+
+/-! ## SeriesAxis methods translated from the source (wave-3 extension, `Generated/C18Funcs.lean`) -/
+
+open Nb.Py in
+/-- the translated `get_element`, `__getitem__` (slice / int / any other index object) and `__add__` compute the
+    model functions, for every axis and every argument -/
+theorem gen_series_eq_model (a b : Series) (s : PySlice) (i : Int) :
+    Gen.C18F.getElementW (.int a.start) (.int a.step) (.int (a.size : Int)) (.int (a.unit : Int)) (.int i) =
+      asPy V.int (seriesGetElement a i) ∧
+    Gen.C18F.getitemW (.int a.start) (.int a.step) (.int (a.size : Int)) (.int (a.unit : Int)) (V.ofPySlice s) =
+      asPy encSeries (seriesGetSlice a s) ∧
+    Gen.C18F.getitemW (.int a.start) (.int a.step) (.int (a.size : Int)) (.int (a.unit : Int)) (.int i) =
+      asPy V.int (seriesGetElement a i) ∧
+    (∀ x, V.isSlice x = false → V.isIntegral x = false →
+      Gen.C18F.getitemW (.int a.start) (.int a.step) (.int (a.size : Int)) (.int (a.unit : Int)) x =
+        .error .indexError) ∧
+    Gen.C18F.addW (.int a.start) (.int a.step) (.int (a.size : Int)) (.int (a.unit : Int))
+        (.int b.start) (.int b.step) (.int (b.size : Int)) (.int (b.unit : Int)) =
+      asPy encSeries (seriesAdd a b) :=
+  ⟨gen_getElement_eq a i, gen_getitem_slice_eq a s, gen_getitem_int_eq a i,
+   fun x h1 h2 => gen_getitem_other a x h1 h2, gen_add_eq a b⟩
+
+open Nb.Py in
+example : Gen.C18F.getitemW (.int 0) (.int 1) (.int 5) (.int 0) (V.ofPySlice ⟨none, none, some 2⟩) =
+    .ok (V.ofList [.int 0, .int 2, .int 3, .int 0]) := by decide
+
+open Nb.Py in
+/-- the property clause on the TRANSLATED `__getitem__`: for every axis and every valid slice the result is an
+    axis whose time points are exactly `axis.time[slice]` (values and length), same unit; step 0 → ValueError -/
+theorem gen_series_getitem_spec (a : Series) (s : PySlice) :
+    (s.Valid → ∃ r, Gen.C18F.getitemW (.int a.start) (.int a.step) (.int (a.size : Int)) (.int (a.unit : Int))
+        (V.ofPySlice s) = .ok (encSeries r) ∧
+      r.elements = s.apply a.elements ∧ r.size = s.len a.size ∧ r.unit = a.unit) ∧
+    (¬ s.Valid → Gen.C18F.getitemW (.int a.start) (.int a.step) (.int (a.size : Int)) (.int (a.unit : Int))
+        (V.ofPySlice s) = .error .valueError) := by
+  constructor
+  · intro hv
+    obtain ⟨r, h, h1, h2, h3⟩ := series_getitem_spec a s hv
+    exact ⟨r, by rw [gen_getitem_slice_eq, h]; rfl, h1, h2, h3⟩
+  · intro hv
+    rw [gen_getitem_slice_eq, series_getitem_step0 a s hv]; rfl
+
+example : (⟨none, none, some 2⟩ : PySlice).Valid ∧ ¬ (⟨none, none, some 0⟩ : PySlice).Valid := by
+  constructor <;> decide
+
+open Nb.Py in
+/-- the translated `axis[i]` is `list(axis.time)[i]` for every Python int (IndexError exactly when the list raises) -/
+theorem gen_series_int_spec (a : Series) (i : Int) :
+    Gen.C18F.getitemW (.int a.start) (.int a.step) (.int (a.size : Int)) (.int (a.unit : Int)) (.int i) =
+      asPy V.int (npGet a.elements i) := by
+  rw [gen_getitem_int_eq, series_int_spec]
+
+open Nb.Py in
+example : Gen.C18F.getitemW (.int (-4)) (.int 3) (.int 3) (.int 0) (.int (-1)) = .ok (.int 2) ∧
+    Gen.C18F.getitemW (.int (-4)) (.int 3) (.int 3) (.int 0) (.int 3) = .error .indexError := by
+  constructor <;> decide
+
+open Nb.Py in
+/-- the translated `a + b`: refused (ValueError) unless step and unit agree; otherwise `len a + len b` points
+    continuing `a`, the concatenation of the two time lists when `b` starts where `a` ends -/
+theorem gen_series_add_spec (a b : Series) :
+    (b.step = a.step ∧ b.unit = a.unit →
+      ∃ r, Gen.C18F.addW (.int a.start) (.int a.step) (.int (a.size : Int)) (.int (a.unit : Int))
+          (.int b.start) (.int b.step) (.int (b.size : Int)) (.int (b.unit : Int)) = .ok (encSeries r) ∧
+        r.size = a.size + b.size ∧ r.unit = a.unit ∧
+        (b.start = a.start + (a.size : Int) * a.step → r.elements = a.elements ++ b.elements)) ∧
+    (¬ (b.step = a.step ∧ b.unit = a.unit) →
+      Gen.C18F.addW (.int a.start) (.int a.step) (.int (a.size : Int)) (.int (a.unit : Int))
+          (.int b.start) (.int b.step) (.int (b.size : Int)) (.int (b.unit : Int)) = .error .valueError) := by
+  constructor
+  · intro h
+    obtain ⟨r, hr, h1, h2, _, h4⟩ := (series_add_spec a b).1 h
+    exact ⟨r, by rw [gen_add_eq, hr]; rfl, h1, h2, h4⟩
+  · intro h
+    rw [gen_add_eq, (series_add_spec a b).2 h]; rfl
+
+open Nb.Py in
+example : Gen.C18F.addW (.int 0) (.int 2) (.int 3) (.int 1) (.int 6) (.int 2) (.int 2) (.int 1) =
+    .ok (V.ofList [.int 0, .int 2, .int 5, .int 1]) := by decide
+
 
 end Nb.C18
